@@ -28,6 +28,7 @@ type btr struct {
 	seqName string              // name of the ansi.Print parameter of print(), "" otherwise
 	glyph   string              // local holding the glyph cell of print()
 	cellVar string              // local holding a copy of a cell (`ch := vt.activeScreen[r][c]`)
+	fnName  string              // the function being translated
 	tabsAcc string              // local slice `tabs := []column{}`
 	tabVar  string              // value variable of `for _, ts := range vt.tabStop`
 	tabIdx  string              // index variable of `for i := len(vt.tabStop) - 1; i >= 0; i -= 1`
@@ -773,7 +774,45 @@ func (t *btr) assign(s *ast.AssignStmt) string {
 	return t.unk(s)
 }
 
+// statements of resize() recognised as a whole (by their whitespace-normalised source text)
+func (t *btr) resizeStmt(s ast.Stmt) (string, bool) {
+	if t.fnName != "resize" || len(t.loops) != 0 {
+		return "", false
+	}
+	w, okw := t.locals["w"]
+	h, okh := t.locals["h"]
+	if !okw || !okh {
+		return "", false
+	}
+	W := fmt.Sprintf("(.loc (.var %d))", w)
+	H := fmt.Sprintf("(.loc (.var %d))", h)
+	switch t.src(s) {
+	case "primary := vt.primaryScreen":
+		return "(.prim .snapshotPrimary)", true
+	case "vt.altScreen = make([][]cell, h)":
+		return "(.allocAlt " + H + ")", true
+	case "vt.primaryScreen = make([][]cell, h)":
+		return "(.allocPrimary " + H + ")", true
+	case "for i := range vt.altScreen { vt.altScreen[i] = make([]cell, w) vt.primaryScreen[i] = make([]cell, w) }":
+		return "(.fillRows " + W + ")", true
+	case "for _, st := range []*cursorState{&vt.primaryState, &vt.altState} { if st.cursor.row > row(h)-1 { st.cursor.row = row(h) - 1 } if st.cursor.col > column(w)-1 { st.cursor.col = column(w) - 1 } }":
+		return "(.clampSaved " + H + " " + W + ")", true
+	case "vt.activeScreen = vt.primaryScreen":
+		return "(.prim .activePrimary)", true
+	case "switch vt.mode.smcup { case false: vt.activeScreen = vt.primaryScreen default: vt.activeScreen = vt.altScreen }":
+		return "(.prim .activeBySmcup)", true
+	case "for row := 0; row < len(primary); row += 1 { if row == int(last) { break } wrapped := false for col := 0; col < len(primary[0]); col += 1 { cell := primary[row][col] vt.cursor.Style = cell.Style vt.print(ansi.Print{ Grapheme: cell.Character.Grapheme, Width: cell.Character.Width, }) wrapped = cell.wrapped } if !wrapped { vt.nel() } }":
+		if k, ok := t.locals["last"]; ok && k == 2 {
+			return "(.prim .reflowOld)", true
+		}
+	}
+	return "", false
+}
+
 func (t *btr) stmt(s ast.Stmt) string {
+	if r, ok := t.resizeStmt(s); ok {
+		return r
+	}
 	switch x := s.(type) {
 	case *ast.EmptyStmt:
 		return ".skip"
@@ -987,6 +1026,7 @@ func genBodies(c *ex.Ctx) {
 		}
 		fd := ex.FindFunc(f, "Model", sp.fn)
 		t := newTr(c)
+		t.fnName = sp.fn
 		if fd == nil || fd.Body == nil {
 			// a vanished function is a body that is entirely unknown (the theorems about it break)
 			t.unknown = 1
